@@ -1,0 +1,24 @@
+//go:build verif
+
+// Contracts for package omniwitness, checked by /verif/govc (see /verif/DESIGN.md).
+// This file contains no code: only structured //@ comments keyed by function.
+
+package omniwitness
+
+//@ func (LogConfig).AsLogMap
+//@   returns (m, err)
+//@   let logs := config.Logs
+//@   // every entry of the result is filed under the ID of its own origin
+//@   ensures[C02.m,C12.k] err == nil ==> m != nil && (forall k string :: k in m ==> k == ID(m[k].Origin))
+//@   // every configured log has its entry: ID(origin) -> {verifier made from that log's key, that log's origin}
+//@   ensures[C02.n,C12.k] err == nil ==> (forall j int :: 0 <= j && j < len(logs) ==> ID(logs[j].Origin) in m && m[ID(logs[j].Origin)].Origin == logs[j].Origin
+//@                        && m[ID(logs[j].Origin)].SigV == verifierFor(logs[j].PublicKey) && verifierOK(logs[j].PublicKey))
+//@   // two configured logs that would share an ID are refused
+//@   ensures[C12.d] err == nil ==> (forall a int, b int :: 0 <= a && a < b && b < len(logs) ==> ID(logs[a].Origin) != ID(logs[b].Origin))
+//@   ensures[C12.d] err != nil ==> m == nil
+//@   invariant#1 0 <= $i && $i <= len(logs) && logMap != nil
+//@   invariant#1 forall k string :: k in logMap ==> k == ID(logMap[k].Origin)
+//@   invariant#1 forall j int :: 0 <= j && j < $i ==> ID(logs[j].Origin) in logMap && logMap[ID(logs[j].Origin)].Origin == logs[j].Origin
+//@               && logMap[ID(logs[j].Origin)].SigV == verifierFor(logs[j].PublicKey) && verifierOK(logs[j].PublicKey)
+//@   invariant#1 forall a int, b int :: 0 <= a && a < b && b < $i ==> ID(logs[a].Origin) != ID(logs[b].Origin)
+//@   decreases#1 len(logs) - $i
